@@ -146,7 +146,7 @@ def rerun_job(spec, worker_fn):
 def same_case(f, g):
     from .desc import tup
 
-    keys = [k for k in ('kind', 'names', 's', 'a', 'area', 'name', 'pattern', 'origin', 'args', 'seq') if k in f]
+    keys = [k for k in ('kind', 'names', 's', 'a', 'area', 'name', 'pattern', 'origin', 'args', 'seq', 'params', 'script') if k in f]
     return all(tup(f.get(k)) == tup(g.get(k)) for k in keys)
 
 
@@ -204,7 +204,7 @@ def simplicity(case):
     return (nonfloor(rows), len(rows) * len(rows[0]), len(case.get('names', ())))
 
 
-def report_fails(rep, fails, replay, limit_per_sig=2, job_runner=None):
+def report_fails(rep, fails, replay, limit_per_sig=2, job_runner=None, job_replayer=None):
     """sort failing cases simplest-first, re-execute each, report (at most limit_per_sig replays per signature).
     A case that fails in its exploration job but not in isolation is re-run together with the job's preceding cases
     (job_runner(spec) -> failures): if it fails again there, the behaviour depends on earlier calls in the process -
@@ -239,6 +239,13 @@ def report_fails(rep, fails, replay, limit_per_sig=2, job_runner=None):
                 rep.violation({'kind': 'job', 'job': job, 'inner': f, 'sig': dict(f.get('sig', {}), history_dependent=True)},
                               msg + extra + ' [fails only after the preceding cases of its exploration job, not in isolation: '
                               'the answer depends on earlier calls in the same process]')
+                continue
+        if job is not None and job_replayer is not None:
+            # job_replayer(case) re-runs the job in a brand-new interpreter and says whether the inner case fails again
+            case = {'kind': 'job', 'job': job, 'inner': f, 'sig': dict(f.get('sig', {}), history_dependent=True)}
+            if job_replayer(case):
+                rep.violation(case, msg + extra + ' [fails only after the preceding cases of its exploration job, not in '
+                              'isolation: the answer depends on earlier calls in the same process]')
                 continue
         raise SystemExit(f'INTERNAL: violation did not reproduce on re-execution: {msg}')
 
